@@ -32,6 +32,8 @@ TOKEN = re.compile(r'\s*(?:(\d+)|"([^"]*)"|\'([^\']*)\'|([A-Za-z_][A-Za-z0-9_\.]
 
 
 def tokenize_expr(s):
+    if any(0xE000 <= ord(ch) <= 0xF8FF for ch in s):
+        raise Unsupported('symbolic text inside a tera expression')
     out = []
     i = 0
     s = s.strip()
@@ -288,7 +290,7 @@ def render_nodes(I, ctx, nodes):
 _PARSED = {}
 
 
-def render_template(I, text, zerv_opt):
+def render_template(I, text, zerv_opt, sym=None):
     nodes = _PARSED.get(text)
     if nodes is None:
         nodes = parse_template(text)
@@ -299,19 +301,36 @@ def render_template(I, text, zerv_opt):
         z = None if z.variant == 0 else peel(z.fields[0])
     if z is not None:
         rec = I.call('ZervTemplateContext::from_zerv', [ValPtr(z)])
-    return render_nodes(I, Ctx(I, rec), nodes)
+    cs = render_nodes(I, Ctx(I, rec), nodes)
+    if sym:
+        cs = [sym.get(chr(c), c) if isinstance(c, int) and 0xE000 <= c <= 0xF8FF else c for c in cs]
+    return cs
 
 
 @override('Template::render_string')
 def _render_string(I, ci, this, zerv_opt):
     t = peel(this)
     text = chars_of(t.fields[0])
+    sym = {}
     if not all(isinstance(c, int) for c in text):
-        raise Unsupported('symbolic template text')
-    text = ''.join(chr(c) for c in text)
+        # symbolic characters may only occur in literal text (e.g. the digits of a number pasted into the template):
+        # they travel through the parser as private-use placeholders
+        out = []
+        for c in text:
+            if isinstance(c, int):
+                if 0xE000 <= c <= 0xF8FF:
+                    raise Unsupported('private-use char in template')
+                out.append(chr(c))
+            else:
+                ph = chr(0xE000 + len(sym))
+                sym[ph] = c
+                out.append(ph)
+        text = ''.join(out)
+    else:
+        text = ''.join(chr(c) for c in text)
     I.world.stats.models['tera::render(subset model)'] = I.world.stats.models.get('tera::render(subset model)', 0) + 1
     try:
-        cs = render_template(I, text, zerv_opt)
+        cs = render_template(I, text, zerv_opt, sym)
     except TeraError as e:
         return err(Adt('ZervError', I.prog.variant_index('ZervError', 'TemplateError') or 0, [mkstring('Template render error: %s' % e)]))
     # `.map(|s| s.trim().to_string())`
